@@ -4,6 +4,7 @@ import (
 	"fmt"
 	"math"
 	"regexp"
+	"regexp/syntax"
 	"strconv"
 	"go/token"
 	"go/types"
@@ -90,10 +91,20 @@ func init() {
 		return StringV{opaque: true, nonEmpty: true}
 	}
 	models["strconv.FormatUint"] = func(e *Engine, st *State, args []Value, call *ssa.Call, pos token.Pos) Value {
-		if t, ok := args[0].(*Term); ok && t.k {
-			if b, ok := args[1].(*Term); ok && b.k {
-				return StringV{conc: strconv.FormatUint(t.c, int(b.c))}
-			}
+		t, b := term(args[0]), term(args[1])
+		if t.k && b.k {
+			return StringV{conc: strconv.FormatUint(t.c, int(b.c))}
+		}
+		if e.symbolicText && b.k && b.c == 10 {
+			// harnesses that decide text-level properties ask for real symbolic decimal text
+			e.forkDecimal(st, t, func(s2 *State, bs []*Term) {
+				o := &Object{typ: types.NewArray(types.Typ[types.Uint8], int64(len(bs))), n: len(bs)}
+				for _, x := range bs {
+					o.slots = append(o.slots, x)
+				}
+				s2.top().env[call] = StringV{isObj: true, obj: s2.alloc(o), off: BV(64, 0), ln: BV(64, uint64(len(bs)))}
+			})
+			panic("unreachable")
 		}
 		return StringV{opaque: true, nonEmpty: true}
 	}
@@ -234,7 +245,13 @@ func init() {
 	models["(*regexp.Regexp).MatchString"] = func(e *Engine, st *State, args []Value, call *ssa.Call, pos token.Pos) Value {
 		s, ok := e.concString(st, args[1])
 		if !ok {
-			panic(unsupported{"regexp match on a symbolic string"})
+			if sv, isS := args[1].(StringV); isS {
+				if bs, ok2 := e.stringBytes(st, sv); ok2 {
+					modelsUsed["regexp match on symbolic text -> bounded symbolic Pike VM over the pattern's own syntax.Prog"]++
+					return pikeMatch(reOf(e, st, args[0]), bs)
+				}
+			}
+			panic(unsupported{"regexp match on a string of symbolic length"})
 		}
 		return Bool(reOf(e, st, args[0]).MatchString(s))
 	}
@@ -248,7 +265,11 @@ func init() {
 			s, ok = "", true
 		}
 		if !ok {
-			panic(unsupported{"regexp match on symbolic bytes"})
+			if bs, ok2 := e.stringBytes(st, StringV{isObj: true, obj: sl.obj, off: sl.off, ln: sl.ln}); ok2 {
+				modelsUsed["regexp match on symbolic text -> bounded symbolic Pike VM over the pattern's own syntax.Prog"]++
+				return pikeMatch(reOf(e, st, args[0]), bs)
+			}
+			panic(unsupported{"regexp match on bytes of symbolic length"})
 		}
 		return Bool(reOf(e, st, args[0]).MatchString(s))
 	}
@@ -511,6 +532,56 @@ func init() {
 			return iv
 		}
 		return Iface{}
+	}
+	// strconv.AppendUint base 10: native on a constant; on a symbolic value below 2^16 the digit count is
+	// forked (1..5) and the digits are terms, so the canonical decimal text is a real symbolic string
+	models["strconv.AppendUint"] = func(e *Engine, st *State, args []Value, call *ssa.Call, pos token.Pos) Value {
+		dst := args[0].(SliceV)
+		v, base := term(args[1]), term(args[2])
+		if !base.k {
+			panic(unsupported{"AppendUint with symbolic base"})
+		}
+		mkSrc := func(s2 *State, bs []*Term) SliceV {
+			o := &Object{typ: types.NewArray(types.Typ[types.Uint8], int64(len(bs))), n: len(bs)}
+			for _, b := range bs {
+				o.slots = append(o.slots, b)
+			}
+			n := BV(64, uint64(len(bs)))
+			return SliceV{obj: s2.alloc(o), off: BV(64, 0), ln: n, cap: n, es: 1}
+		}
+		if v.k {
+			text := strconv.AppendUint(nil, v.c, int(base.c))
+			bs := make([]*Term, len(text))
+			for i, c := range text {
+				bs[i] = BV(8, uint64(c))
+			}
+			return e.appendOp(st, dst, mkSrc(st, bs), call, pos)
+		}
+		if base.c != 10 {
+			panic(unsupported{"AppendUint of a symbolic value in a base other than 10"})
+		}
+		e.forkDecimal(st, v, func(s2 *State, bs []*Term) {
+			s2.top().env[call] = e.appendOp(s2, dst, mkSrc(s2, bs), call, pos)
+		})
+		panic("unreachable")
+	}
+	// regexp/syntax.Parse: run natively; the interpreted code only inspects the top-level operator
+	models["regexp/syntax.Parse"] = func(e *Engine, st *State, args []Value, call *ssa.Call, pos token.Pos) Value {
+		pat, ok := e.concString(st, args[0])
+		fl := term(args[1])
+		if !ok || !fl.k {
+			panic(unsupported{"syntax.Parse of a non-constant pattern"})
+		}
+		re, err := syntax.Parse(pat, syntax.Flags(fl.c))
+		tt := call.Type().(*types.Tuple)
+		if err != nil {
+			return TupleV{zeroValue(tt.At(0).Type()), Iface{typ: opaqueErrType, val: Pointer{obj: st.alloc(&Object{typ: opaqueErrType, slots: []Value{}}), off: BV(64, 0)}}}
+		}
+		rt := tt.At(0).Type().Underlying().(*types.Pointer).Elem()
+		o := newObjFor(rt)
+		o.slots[0] = BV(8, uint64(re.Op)) // field Op; the other fields are not modelled
+		o.native = re
+		return TupleV{Pointer{obj: st.alloc(o), off: BV(64, 0)}, Iface{}}
 	}
 	models["os.Hostname"] = func(e *Engine, st *State, args []Value, call *ssa.Call, pos token.Pos) Value {
 		return TupleV{StringV{conc: "verifhost"}, Iface{}}
@@ -860,4 +931,36 @@ type tailCall2 struct {
 	fn   Value
 	args []Value
 	post func(Value) Value
+}
+
+// forkDecimal forks on the number of decimal digits of a symbolic unsigned value (< 10^10) and hands
+// the digit bytes ('0'+d terms, most significant first) to the continuation.
+func (e *Engine) forkDecimal(st *State, v *Term, cont func(s2 *State, bs []*Term)) {
+	v = ZExt(v, 64)
+	ub, ok := e.maxValue(st, v, 9999999999)
+	if !ok {
+		panic(unsupported{"decimal text of a symbolic value that may exceed 10 digits"})
+	}
+	maxd := 1
+	for p := uint64(10); p <= ub && maxd < 10; p *= 10 {
+		maxd++
+	}
+	pow := []uint64{1, 10, 100, 1000, 10000, 100000, 1000000, 10000000, 100000000, 1000000000, 10000000000}
+	conds := make([]*Term, maxd)
+	for d := 1; d <= maxd; d++ {
+		c := Cmp("bvult", v, BV(64, pow[d]))
+		if d > 1 {
+			c = And(c, Cmp("bvuge", v, BV(64, pow[d-1])))
+		}
+		conds[d-1] = c
+	}
+	e.branch(st, conds, func(s2 *State, k int) {
+		d := k + 1
+		bs := make([]*Term, d)
+		for i := 0; i < d; i++ {
+			digit := Bin("bvurem", Bin("bvudiv", v, BV(64, pow[d-1-i])), BV(64, 10))
+			bs[i] = Bin("bvadd", Extract(digit, 7, 0), BV(8, '0'))
+		}
+		cont(s2, bs)
+	})
 }
